@@ -38,6 +38,8 @@ func main() {
 	switch os.Args[1] {
 	case "check":
 		os.Exit(cmdCheck(os.Args[2:]))
+	case "checkall":
+		os.Exit(cmdCheckAll(os.Args[2:]))
 	case "replay":
 		if len(os.Args) < 3 {
 			usage()
@@ -157,6 +159,57 @@ func cmdCheck(args []string) (code int) {
 		}
 	}
 	return c.Finish(start, "other", findings)
+}
+
+// cmdCheckAll runs several properties in one process, sharing the loaded program (development
+// aid for evaluating seeded changes; the registered commands always run one property each).
+func cmdCheckAll(args []string) int {
+	fs := flag.NewFlagSet("checkall", flag.ExitOnError)
+	props := fs.String("props", "", "comma-separated property ids (default: all registered)")
+	repo := fs.String("repo", "/repo", "repository directory")
+	verif := fs.String("verif", "/verif", "verification directory")
+	fs.Parse(args)
+	var ids []string
+	if *props != "" {
+		ids = strings.Split(*props, ",")
+	} else {
+		ids = rules.Properties()
+	}
+	findings, _ := core.LoadFindings(*verif)
+	scratch := filepath.Join(os.TempDir(), fmt.Sprintf("ledgerlint-scratch-%d", os.Getpid()))
+	defer os.RemoveAll(scratch)
+	var first *core.Ctx
+	rc := 0
+	for _, id := range ids {
+		check := rules.Lookup(id)
+		if check == nil {
+			continue
+		}
+		start := time.Now()
+		c := core.NewCtx(id, "quick", *repo, *verif)
+		c.VerifDir = scratch
+		func() {
+			defer func() {
+				if r := recover(); r != nil {
+					if a, ok := r.(core.Abort); ok {
+						c.Unknown("framework", "analysis-abort", "", a.Msg)
+						return
+					}
+					c.Unknown("framework", "analyzer-panic", "", fmt.Sprintf("%v\n%s", r, lastLines(string(debug.Stack()), 30)))
+				}
+			}()
+			if first == nil {
+				first = c
+			} else {
+				c.ShareFrom(first)
+			}
+			check(c)
+		}()
+		if c.Finish(start, "other", findings) != 0 {
+			rc = 1
+		}
+	}
+	return rc
 }
 
 func lastLines(s string, n int) string {
